@@ -16,7 +16,11 @@ else:  # pragma: no cover
     xrange = range
 
     def repr_bytes(x):
-        return repr(x)[1:]
+        text = repr(x)[1:]
+        if text[0] == '"':
+            # repr() switches to double quotes for b"it's"; bytes are always rendered between single quotes
+            text = "'" + text[1:-1].replace("'", "\\'") + "'"
+        return text
 
 
 def with_metaclass(meta, *bases):
